@@ -15,7 +15,7 @@ PROP = 'C02'
 LEVEL = 'exploration'
 ENGINE = 'E1'
 TECHNIQUE = 'model checking: exhaustive product of logical documents x all layout choices of the format, each rendering parsed by the real reader, document as reference model'
-LEVEL_TEXT = ('for each of ~44 logical documents (pairs, enum, 1-2 structs incl. substring/colliding names, all column types, extreme cells) the FULL product of '
+LEVEL_TEXT = ('for each of 12 (thorough; the other 32 with 2-option menus) logical documents (pairs, enum, 1-2 structs incl. substring/colliding names, all column types, extreme cells) the FULL product of '
               '12 independent layout freedoms (line ends, comments, trailing comments, blank lines, separators, continuation, string style, array notation, '
               'row-name case, interleaving, channel, raw) is rendered and parsed; every parse must equal the document')
 LEVEL_NOTE = ('covers only the enumerated documents and layout menus; pair placement is coupled to the blank-line menu and number format to the array-notation menu; '
@@ -359,14 +359,17 @@ def menus(tier):
 
 
 def tasks(tier):
-    docs = DOCS if tier == 'thorough' else QUICK_DOCS
+    """quick: 12 documents x reduced menus (4096 layouts each). thorough: the same 12 documents x the FULL product of all menus
+    (248 832 layouts each) plus the other 32 documents x the reduced menus."""
     t = []
-    m = dict(menus(tier))
-    for d in docs:
+    plan = [(d, 'quick') for d in QUICK_DOCS] if tier == 'quick' else \
+           [(d, 'thorough') for d in QUICK_DOCS] + [(d, 'quick') for d in DOCS if d not in QUICK_DOCS]
+    for d, mt in plan:
+        m = dict(menus(mt))
         for eol in m['eol']:
             for cmt in m['cmt']:
-                for sstyle in (m['sstyle'] if tier == 'thorough' else [None]):
-                    t.append({'doc': d['id'], 'tier': tier, 'fix': {'eol': eol, 'cmt': cmt, **({'sstyle': sstyle} if sstyle else {})}})
+                for sstyle in (m['sstyle'] if mt == 'thorough' else [None]):
+                    t.append({'doc': d['id'], 'tier': mt, 'fix': {'eol': eol, 'cmt': cmt, **({'sstyle': sstyle} if sstyle else {})}})
     return t
 
 
